@@ -30,6 +30,15 @@ class HarnessError(Exception):
     """The simulator itself misbehaved (never reported as pass or violation)."""
 
 
+class StepBudgetExceeded(Exception):
+    """An update needed more solver steps / callback calls than any run may take
+    (bounds every simulated run; such an update counts as rejected)."""
+
+
+MAX_SOLVER_STEPS = 60_000
+MAX_CALLBACK_CALLS = 600_000
+
+
 # --------------------------------------------------------------------------- seams
 def install_seams():
     """Rebind module attributes PyDRex looks up at call time.  Pass-through unless a
@@ -89,6 +98,8 @@ def install_seams():
                 plan["fired"] = True
                 self.status = "failed"
                 return "injected solver failure"
+            if self._sim_steps >= MAX_SOLVER_STEPS:
+                raise StepBudgetExceeded(f"more than {MAX_SOLVER_STEPS} solver steps in one update")
             msg = super().step()
             self._sim_steps += 1
             cnt = getattr(_tls, "solver_count", None)
@@ -194,6 +205,8 @@ class Callbacks:
         self._yield("L")
         i = self.nL
         self.nL += 1
+        if i >= MAX_CALLBACK_CALLS:
+            raise StepBudgetExceeded(f"more than {MAX_CALLBACK_CALLS} velocity-gradient calls in one update")
         f = self.fault
         kind = f.get("kind")
         if kind == "L_raises" and i == f["at_call"]:
@@ -332,6 +345,17 @@ class World:
             if self.tr.has_Q:
                 A = A @ self.tr.QT
             f = E.make_fractions(ms["volumes"], n)
+            pert = self.spec.get("perturb")
+            if pert:
+                # conditioning probe: a deterministic perturbation of relative size eps
+                from scipy.spatial.transform import Rotation
+
+                prng = np.random.default_rng(int(pert.get("seed", 0)) + idx)
+                rv = prng.normal(size=(n, 3))
+                rv *= float(pert["eps"]) / np.linalg.norm(rv, axis=1, keepdims=True)
+                A = np.einsum("gij,gjk->gik", Rotation.from_rotvec(rv).as_matrix(), A)
+                f = f * (1.0 + float(pert["eps"]) * prng.uniform(-1, 1, size=n))
+                f = f / f.sum()
             obj = pydrex.Mineral(
                 phase=phase,
                 fabric=fabric,
